@@ -318,7 +318,7 @@ def run_file_api(params, known):
         if kind in kinds:
             return
         kinds.add(kind)
-        v = Violation(PROP, 'file-api', kind, dict(), '%r: %s' % (case, detail)).as_dict()
+        v = Violation(params.get('prop', PROP), 'file-api', kind, dict(), '%r: %s' % (case, detail)).as_dict()
         v['case'] = case
         violations.append(v)
 
